@@ -283,7 +283,7 @@ enum { ARENA_SIZE = 48 * 1024, ARENA_TAIL = 64, ARENA_LO = 4, ARENA_HI = ARENA_S
 void arena_fill(Task &t);
 
 // handler log: harness handlers call this
-void note_handler(int hid, int kind, const char *msg, int code);
+void note_handler(int hid, int kind, const char *msg, int code, const void *ptr = nullptr);
 extern void (*g_handler_after)(int hid);          // called in the handler after logging, on the caller's stack (may re-enter the library)
 extern void (*g_handler_hook)(int hid, int code); // called (on the alt stack) for every logged handler invocation
 extern "C" void sim_handler_log(const char *msg, void *ptr, int error);   // hid 1 (C12/C20 default registration)
